@@ -21,6 +21,7 @@
 From Coq Require Import NArith List Bool.
 From GT Require Import Base.GErrStr.
 From GT Require Import GErrModel GErrSpec GErrHist GErrIsProofs GErrHistProofs.
+From GT Require Import GErrIsJudge GErrIsJudgeProofs.
 Import ListNotations.
 
 (* ---- every reachable store is well formed ---- *)
@@ -99,7 +100,7 @@ Proof. exact extract_gerr. Qed.
 Definition C06_convert_fwd_full_statement : Prop :=
   forall xw st v m a st' r i t p u,
     guarded_wiring xw -> wf st -> gv st v = Some i ->
-    w_serr (wt_of xw v m) = EErr -> a_err a = VF t true p u -> pure u = true ->
+    w_serr (wt_of xw v m) = EErr -> a_err a = VF t true p u -> chain_ok st u = true ->
     call xw st v m a = Some (st', r) ->
     errors_is st' r (VF t true p u) = Ok true.
 
@@ -114,7 +115,7 @@ Proof. exact convert_wiring. Qed.
    the result matches exactly the recorded ones, and never panics *)
 Theorem C06_convert_fwd_general : forall xw st v m a st' r i ci t c p u,
   guarded_wiring xw -> wf st -> gv st v = Some i -> nth_error st i = Some ci ->
-  w_serr (wt_of xw v m) = EErr -> a_err a = VF t c p u -> pure u = true ->
+  w_serr (wt_of xw v m) = EErr -> a_err a = VF t c p u -> chain_ok st u = true ->
   call xw st v m a = Some (st', r) ->
   errors_is st' r (VF t c p u)
   = Ok (conv_after (g_serr (c_g ci)) (g_later (c_g ci)) (VF t c p u)).
@@ -129,7 +130,7 @@ Proof. exact (fun st va i ci t c p u W => errors_is_gf st W va i ci t c p u). Qe
 (* a non-comparable converted error can never compare equal: false, without panic *)
 Theorem C06_convert_fwd_noncomparable : forall xw st v m a st' r i ci t p u,
   guarded_wiring xw -> wf st -> gv st v = Some i -> nth_error st i = Some ci ->
-  w_serr (wt_of xw v m) = EErr -> a_err a = VF t false p u -> pure u = true ->
+  w_serr (wt_of xw v m) = EErr -> a_err a = VF t false p u -> chain_ok st u = true ->
   call xw st v m a = Some (st', r) ->
   errors_is st' r (VF t false p u) = Ok false.
 Proof. exact convert_fwd_noncomparable. Qed.
@@ -177,9 +178,34 @@ Theorem C06_convert_fwd_orig_refuted :
 Proof. exact double_convert_orig_not_recorded. Qed.
 
 (* ---- none of these calls panics, for any source and any target ---- *)
+(* whenever a gerror value is the source or the target: every admissible other side (nil, a valid
+   gerror value, a foreign error of ANY dynamic type — non-comparable, or of a comparable type
+   whose value is not comparable — wrapping nothing or, through %w, a gerror value) *)
 Theorem C06_no_panic : forall st va vb,
-  wf st -> admissible st va -> admissible st vb -> exists b, errors_is st va vb = Ok b.
+  wf st -> admissible st va -> admissible st vb ->
+  is_gerr_val va = true \/ is_gerr_val vb = true ->
+  exists b, errors_is st va vb = Ok b.
+Proof. exact errors_is_total_gerr. Qed.
+
+(* the general form: the only panicking pair left is the stdlib's own `err == target` on two
+   FOREIGN errors of one deeply non-comparable dynamic type, where no gerror code runs *)
+Theorem C06_no_panic_general : forall st va vb,
+  wf st -> admissible st va -> admissible st vb ->
+  (is_gerr_val va = false -> va <> VNil -> deep vb = false) ->
+  exists b, errors_is st va vb = Ok b.
 Proof. exact errors_is_total. Qed.
+
+(* the code before the value-level comparability repair (guard = reflect.TypeOf(e).Comparable()):
+   Convert of struct{v any}{[]int{..}}, then result.Is(that error) panics; repaired: false *)
+Theorem C06_no_panic_type_guard_refuted :
+  match call base_wiring panic_store (VG 0) MConvert deep_args with
+  | Some (st', r) =>
+      type_comparable deep_err = true /\ comparable deep_err = false
+      /\ gerr_is_ty 4 st' 1 deep_err = Panic /\ r = VG 1
+      /\ errors_is st' r deep_err = Ok false
+  | None => False
+  end.
+Proof. exact type_guard_panics. Qed.
 
 (* the pinned code did: Convert of a slice-typed error, then errors.Is(result, that error) *)
 Theorem C06_no_panic_orig_refuted :
@@ -194,6 +220,63 @@ Theorem C06_bare_extension_observation :
   | None => False
   end.
 Proof. exact bare_ext_not_matched. Qed.
+
+(* ---- the judge's executable specification (GErrHist.spec_ops / spec_is / spec_extract, the
+        bookkeeping computed from the HISTORY alone that GErrIsJudge.c06_judge applies to every
+        observed case) is sound for the model: for any pool, any admissible history of any
+        length and any foreign list, [hinv] relates the bookkeeping to the store the model
+        computes (origin, root, FactoryOf mark, converted error), and every claim the
+        specification makes is a theorem about errors_is / ExtractFactoryReference ---- *)
+Theorem C06_spec_invariant : forall roots fs ops st res infos exp,
+  roots_ok roots = true -> fs_vf fs = true -> ops_adm roots fs ops = true ->
+  run_ops ext_wiring (map root_cell_of roots) fs ops = Some (st, res) ->
+  spec_ops (infos0 0 roots) ops = (infos, exp) ->
+  hinv (length roots) fs st infos /\ res_ok exp res = true.
+Proof. exact c06_invariant. Qed.
+
+Theorem C06_spec_is_sound : forall n fs st infos x y b,
+  hinv n fs st infos -> fs_admb st fs = true -> ref_in st fs x -> ref_in st fs y ->
+  spec_is infos fs x y = Some b ->
+  errors_is st (resolve st fs x) (resolve st fs y) = Ok b.
+Proof. exact spec_is_sound. Qed.
+
+Theorem C06_spec_extract_sound : forall n fs st infos k e,
+  hinv n fs st infos -> k < length st ->
+  spec_extract infos k = Some e -> model_extract st k = e.
+Proof. exact spec_extract_sound. Qed.
+
+(* no panic on every pair the judge holds the code responsible for *)
+Theorem C06_spec_no_panic : forall n fs st infos x y,
+  hinv n fs st infos -> fs_admb st fs = true -> deep_pairs_ok fs = true ->
+  ref_in st fs x -> ref_in st fs y -> no_gerror_side fs x y = false ->
+  exists b, errors_is st (resolve st fs x) (resolve st fs y) = Ok b.
+Proof. exact model_no_panic_judged. Qed.
+
+(* the model never contradicts the judge's specification: judged on its own observations a case
+   gets verdict 0 *)
+Theorem C06_model_satisfies_spec : forall c res m ex,
+  c06_domain c = true -> ops_adm (q_roots c) (q_foreign c) (q_ops c) = true ->
+  c06_side c = true -> c06_model c = Some (res, m, ex) ->
+  c06_judge (with_model_obs c res m ex) = 0.
+Proof. exact c06_model_judged_ok. Qed.
+
+(* "errors.Is holds between any two errors derived from F", end to end over two chains run one
+   after the other from the same pool factory (both directions, and each against F) *)
+Theorem C06_siblings_end_to_end : forall xw st F ch1 ch2 st1 e1 st2 e2,
+  guarded_wiring xw -> Forall root_cell st -> F < length st ->
+  Forall (fun s => admissible st (a_err (snd s))) ch1 -> forallb no_shortcut ch1 = true ->
+  derive xw st (val_of st F) ch1 = Some (st1, e1) ->
+  Forall (fun s => admissible st1 (a_err (snd s))) ch2 -> forallb no_shortcut ch2 = true ->
+  derive xw st1 (val_of st1 F) ch2 = Some (st2, e2) ->
+  errors_is st2 e1 e2 = Ok true /\ errors_is st2 e2 e1 = Ok true
+  /\ errors_is st2 e1 (val_of st2 F) = Ok true /\ errors_is st2 e2 (val_of st2 F) = Ok true.
+Proof. exact siblings_end_to_end. Qed.
+
+Theorem C06_siblings_in_history : forall n fs st infos a b,
+  hinv n fs st infos -> a < length st -> b < length st ->
+  b_orig (nth a infos dummy_info) = b_orig (nth b infos dummy_info) ->
+  errors_is st (val_of st a) (val_of st b) = Ok true.
+Proof. exact siblings_in_history. Qed.
 
 (* ---- non-vacuity: a pool with a FactoryOf factory, a bare factory and an extension factory;
         derived errors of each; the hypotheses hold and the verdicts are as stated ---- *)
@@ -242,6 +325,15 @@ Print Assumptions C06_convert_fwd_noncomparable.
 Print Assumptions C06_convert_bwd.
 Print Assumptions C06_convert_idem.
 Print Assumptions C06_no_panic.
+Print Assumptions C06_no_panic_general.
+Print Assumptions C06_no_panic_type_guard_refuted.
 Print Assumptions C06_no_panic_orig_refuted.
 Print Assumptions C06_bare_extension_observation.
 Print Assumptions C06_derived_errors_identify_their_factory.
+Print Assumptions C06_spec_invariant.
+Print Assumptions C06_spec_is_sound.
+Print Assumptions C06_spec_extract_sound.
+Print Assumptions C06_spec_no_panic.
+Print Assumptions C06_model_satisfies_spec.
+Print Assumptions C06_siblings_end_to_end.
+Print Assumptions C06_siblings_in_history.
